@@ -318,7 +318,7 @@ Section Guards.
     && match v_default v with DFactoryDict => true | _ => false end.
 
   (* a wildcard field (xs:any, `Optional[object]` / `list[object]`, slice S5 partial) holding generic
-     elements (AnyElement trees): not mixed, not nillable, outside sequence groups, no choices; its own
+     elements (AnyElement trees): not mixed, not nillable, no choices (it may be a member of a sequence group); its own
      qualified name is admitted by its namespace constraint (the parser looks the bound objects up under it) *)
   Definition var_common_w (v : xvar) : bool :=      (* XmlVar.any_type is not set on wildcard fields *)
     v_init v && negb (v_mixed v)
@@ -329,7 +329,6 @@ Section Guards.
     v_is KWildcard v && var_common_w v && negb (v_nillable v) && no_wrapper v
     && match v_clazz v with None => true | Some _ => false end
     && match v_tokens_factory v with None => true | Some _ => false end
-    && match v_sequence v with None => true | Some _ => false end
     && match_namespace v (v_qname v)
     && match v_factory v with
        | None => match v_default v with DNone => true | _ => false end
@@ -400,7 +399,6 @@ Section Guards.
            && match v_tokens_factory v with None => true | Some _ => false end
            && match v_factory v with None => true | Some _ => false end
            && match v_default v with DNone => true | _ => false end
-           && match v_sequence v with None => true | Some _ => false end
        | Some t =>
            simple_type t
            && match v_clazz v with None => true | Some _ => false end
